@@ -90,6 +90,8 @@ int EGLPNUM_TYPENAME_ILLis_lp_name_char (
 	int c,
 	int pos)
 {
+	if (c == '\0')
+		return 0;
 	return ((('a' <= c) && (c <= 'z')) ||
 					(('A' <= c) && (c <= 'Z')) ||
 					((pos > 0) && ('0' <= c) && (c <= '9')) ||
